@@ -160,6 +160,16 @@ func mapDynamoToTypesLocalSecondaryIndexes(input []dynamodbtypes.LocalSecondaryI
 	return output
 }
 
+func mapDynamoToTypesGlobalSecondaryIndexUpdates(input []dynamodbtypes.GlobalSecondaryIndexUpdate) []*types.GlobalSecondaryIndexUpdate {
+	output := make([]*types.GlobalSecondaryIndexUpdate, 0, len(input))
+
+	for _, change := range input {
+		output = append(output, mapDynamoTotypesGlobalSecondaryIndexUpdate(change))
+	}
+
+	return output
+}
+
 func mapDynamoTotypesGlobalSecondaryIndexUpdate(input dynamodbtypes.GlobalSecondaryIndexUpdate) *types.GlobalSecondaryIndexUpdate {
 	return &types.GlobalSecondaryIndexUpdate{
 		Create: mapDynamoToTypesCreateGlobalSecondaryIndexAction(input.Create),
